@@ -514,7 +514,7 @@ func c12Compare(c *lab.Ctx, model *c12Model, routerNames, clusterNames []string,
 // ---------------------------------------------------------------------------------------------------------------
 
 func c12Traffic(c *lab.Ctx) {
-	c.Rule("running MOSN, 6 closed-loop clients per protocol (HTTP/1, bolt) while a writer alternately replaces the hosts of their cluster between upstream sets {a,b} and {c,d} and flips the route between two clusters; every request must be answered by an upstream (200) that was configured at some moment between call and return; distinct = (protocol, writer operation, serving upstream)")
+	c.Rule("running MOSN, 6 closed-loop clients per protocol (HTTP/1, bolt) while a writer alternately replaces the hosts of their cluster between upstream sets {a,b} and {c,d} and flips the route between two clusters, and a second writer re-submits the clusters themselves (cluster update, hosts inherited) in a tight loop; every request must be answered by an upstream (200) that was configured at some moment between call and return; distinct = (protocol, writer operation, serving upstream)")
 	protos := []string{"Http1", "bolt"}
 	e, err := newEngine(c, protos, func(string) []routeSpec {
 		return []routeSpec{{Key: "live", Cluster: "cl-$P", Extra: jmap{"timeout": "2s"}}}
@@ -594,6 +594,25 @@ func c12Traffic(c *lab.Ctx) {
 			}(proto, ci)
 		}
 	}
+	// a second writer re-submits the clusters themselves (cluster update: a new cluster object inherits the hosts) in a tight
+	// loop: a request must never find the cluster without its hosts
+	var cwg sync.WaitGroup
+	var clusterUpdates int64
+	cwg.Add(1)
+	go func() {
+		defer cwg.Done()
+		for k := 0; atomic.LoadInt32(&stop) == 0; k++ {
+			for _, p := range protos {
+				if err := ca.TriggerClusterAddOrUpdate(v2.Cluster{Name: "cl-" + p, ClusterType: v2.SIMPLE_CLUSTER, LbType: v2.LB_ROUNDROBIN,
+					MaxRequestPerConn: uint32(100000 + k%7), ConnBufferLimitBytes: 32768}); err == nil {
+					atomic.AddInt64(&clusterUpdates, 1)
+				}
+			}
+			if k%50 == 49 {
+				time.Sleep(time.Millisecond)
+			}
+		}
+	}()
 	rounds := c.Pick(60, 400)
 	for r := 0; r < rounds; r++ {
 		for _, p := range protos {
@@ -630,6 +649,8 @@ func c12Traffic(c *lab.Ctx) {
 	}
 	atomic.StoreInt32(&stop, 1)
 	wg.Wait()
+	cwg.Wait()
+	c.Count("cluster-updates-under-traffic", atomic.LoadInt64(&clusterUpdates))
 	c.Count("served", atomic.LoadInt64(&served))
 	c.Count("failed", atomic.LoadInt64(&failed))
 	c.Sample(map[string]interface{}{"rounds": rounds, "served": served})
